@@ -27,6 +27,7 @@ var registry = map[string]propDef{
 	"C03":  {"other", props.C03},
 	"C03c": {"other", props.C03ctors},
 	"C04":  {"other", props.C04},
+	"C04t": {"other", props.C04tweak},
 	"C05d": {"other", props.C05dispatch},
 	"C05f": {"other", props.C05forms},
 	"C05w": {"other", props.C05wiring},
@@ -56,6 +57,14 @@ var registry = map[string]propDef{
 	"C06m": {"other", props.C06mitccrh},
 	"C06k": {"other", props.C06kdf},
 	"C06p": {"other", props.C06pack},
+	"C06w": {"other", props.OTwindows},
+	"C15w": {"other", props.OTwindows},
+	"C02w": {"other", props.OTwindows},
+	"C02t": {"other", props.C11table},
+	"C02f": {"other", props.C11fill},
+	"C02e": {"other", props.C11data},
+	"C03w": {"other", props.C05wiring},
+	"C04r": {"other", props.C02ranges},
 	"C06s": {"other", props.C06prg},
 	"C18p": {"other", props.C18pack},
 	"C07":  {"other", props.C07},
